@@ -22,6 +22,10 @@ type c03Spec struct {
 	NCtx   int    `json:"nctx"`
 	NPipes int    `json:"npipes"`
 	NOps   int    `json:"nops"`
+	// parked mode
+	Park    string `json:"park,omitempty"`    // drop | busy
+	Abandon string `json:"abandon,omitempty"` // send | timeout
+	Order   string `json:"order,omitempty"`   // both | stale-only
 }
 
 func TestMain(m *testing.M) { hx.Main(m) }
@@ -37,11 +41,23 @@ func TestC03(t *testing.T) {
 	for i := 0; i < nconc; i++ {
 		cases = append(cases, mon.CaseSpec{Name: "conc", Spec: c03Spec{Mode: "conc", NCtx: 1 + rnd.Intn(3), NPipes: 1 + rnd.Intn(3), NOps: 6 + rnd.Intn(10)}})
 	}
+	for rep := 0; rep < r.Pick(6, 300); rep++ {
+		for _, park := range []string{"drop", "busy"} {
+			for _, ab := range []string{"send", "timeout"} {
+				for _, ord := range []string{"both", "stale-only"} {
+					cases = append(cases, mon.CaseSpec{Name: "parked", Spec: c03Spec{Mode: "parked", Park: park, Abandon: ab, Order: ord}})
+				}
+			}
+		}
+	}
 	r.Run(cases, func(c *mon.Case) {
 		sp := c.Spec.(c03Spec)
-		if sp.Mode == "seq" {
+		switch sp.Mode {
+		case "seq":
 			c03Seq(c, sp)
-		} else {
+		case "parked":
+			c03Parked(c, sp)
+		default:
 			c03Conc(c, sp)
 		}
 	})
